@@ -338,3 +338,88 @@ def rule_pos_form(ctx: RuleContext, ts: TS, rid: str) -> None:
     ok = ok and kinds == [('Add', 'inserted'), ('Sub', 'removed')] and all(norm(a.value).endswith('.size.line') for a in ld)
     ctx.check(ok, rid, 'token_store:TokenStore._splice: in-place caches', f'{kinds}', 'the in-place branch does not shift last_newline_index by inserted - removed '
               'tokens and the line count by inserted - removed lines', f.where, note='last_newline_index += len(tokens) - len_removed; size.line += lines_diff')
+
+
+# ====================================================================== BUILD-PART (C07)
+def rule_build_part(ctx: RuleContext, ts: TS, rid: str) -> None:
+    ctx.rule(rid, '_build_blocks partitions the token list: every block is a slice tokens[lo:hi], consecutive slices are contiguous '
+                  '(each lower bound equals the previous upper bound, tracked through `start += K` with the same K as the slice '
+                  'width), the last slice of every terminating branch is open-ended, block indexes count up by one, and the loop '
+                  'counter decreases by exactly the width taken')
+    f = ts._need('_build_blocks')
+    tokens_p = f.params[2]
+    idx_p = f.params[1]
+    loops = [l for l in stmts_no_doc(f.node.body) if isinstance(l, ast.While)]
+    if len(loops) != 1:
+        raise AnalysisError('BUILD-PART: main loop of _build_blocks not found')
+    problems: list[str] = []
+    branches: list[list[ast.stmt]] = []
+
+    def collect(stmts: list[ast.stmt]) -> None:
+        for s in stmts:
+            if isinstance(s, ast.If):
+                branches.append(s.body)
+                if len(s.orelse) == 1 and isinstance(s.orelse[0], ast.If):
+                    collect(s.orelse)
+                elif s.orelse:
+                    branches.append(s.orelse)
+    collect(loops[0].body)
+    if len(branches) < 2:
+        raise AnalysisError('BUILD-PART: branches of _build_blocks not found')
+    for bi, body in enumerate(branches):
+        slices = []
+        for c in [x for st in body for x in ast.walk(st) if isinstance(x, ast.Call) and norm(x.func).endswith('from_tokens')]:
+            a0 = c.args[0]
+            if not (isinstance(a0, ast.Subscript) and norm(a0.value) == tokens_p and isinstance(a0.slice, ast.Slice)):
+                problems.append(f'branch {bi}: block built from {norm(a0)}, not a slice of the token list')
+                continue
+            slices.append((a0.slice.lower, a0.slice.upper, c.args[2] if len(c.args) > 2 else None))
+        terminates = any(isinstance(x, ast.Break) for st in body for x in ast.walk(st))
+        augs = {norm(a.target): a for st in body for a in ast.walk(st) if isinstance(a, ast.AugAssign)}
+        if not slices:
+            problems.append(f'branch {bi}: no block is built')
+            continue
+        # first slice starts at `start`
+        if slices[0][0] is None or norm(slices[0][0]) != 'start':
+            problems.append(f'branch {bi}: first slice starts at {norm(slices[0][0]) if slices[0][0] else 0}, not at the running position')
+        for (lo, hi, ix), (lo2, hi2, ix2) in zip(slices, slices[1:]):
+            if hi is None or lo2 is None or linear.linear(hi) != linear.linear(lo2):
+                problems.append(f'branch {bi}: slices [{norm(lo) if lo else ""}:{norm(hi) if hi else ""}] and [{norm(lo2) if lo2 else ""}:...] are not contiguous')
+            if ix is not None and ix2 is not None and linear.linear(ix2) != linear.linear(ast.BinOp(left=ix, op=ast.Add(), right=ast.Constant(1))):
+                problems.append(f'branch {bi}: block indexes {norm(ix)} -> {norm(ix2)} do not count up by one')
+        if terminates:
+            if slices[-1][1] is not None:
+                problems.append(f'branch {bi}: terminating branch ends with a bounded slice [..:{norm(slices[-1][1])}] (tokens after it are dropped)')
+        else:
+            lo, hi, ix = slices[-1]
+            if hi is None:
+                problems.append(f'branch {bi}: non-terminating branch takes an open-ended slice')
+            else:
+                width = linear.linear(ast.BinOp(left=hi, op=ast.Sub(), right=lo))
+                for var, sign in (('start', 1), ('remaining', -1)):
+                    a = augs.get(var)
+                    if a is None:
+                        problems.append(f'branch {bi}: {var} is not advanced')
+                        continue
+                    got = linear.linear(a.value)
+                    if not ((isinstance(a.op, ast.Add) and sign == 1 or isinstance(a.op, ast.Sub) and sign == -1) and got == width):
+                        problems.append(f'branch {bi}: {var} changes by {"+" if isinstance(a.op, ast.Add) else "-"}{linear.show(got)} but the slice is {linear.show(width)} wide')
+                a = augs.get(idx_p)
+                if a is None or not (isinstance(a.op, ast.Add) and norm(a.value) == '1'):
+                    problems.append(f'branch {bi}: block index is not advanced by one')
+    init = {norm(a.targets[0]): norm(a.value) for a in stmts_no_doc(f.node.body) if isinstance(a, ast.Assign)}
+    if init.get('start') != '0' or init.get('remaining') != f'len({tokens_p})':
+        problems.append(f'loop starts with start={init.get("start")}, remaining={init.get("remaining")}')
+    if norm(loops[0].test) != 'remaining':
+        problems.append(f'loop runs while `{norm(loops[0].test)}`')
+    ctx.check(not problems, rid, 'token_store:_build_blocks', '; '.join(problems) or 'ok', '; '.join(problems), f.where,
+              note=f'{len(branches)} branches: contiguous slices, open-ended tail, counters in step')
+    # split / rebalance in _merge_blocks: b takes a.tokens[length:], a keeps [:length]
+    m = ts._need('TokenStore._merge_blocks')
+    txt = [norm(s) for s in ast.walk(m.node) if isinstance(s, (ast.Assign, ast.Delete, ast.AugAssign))]
+    lens = [a for a in ast.walk(m.node) if isinstance(a, ast.Assign) and norm(a.targets[0]) == 'length']
+    a_, b_ = m.params[1], m.params[2]
+    ok = f'{a_}.tokens += {b_}.tokens' in txt and f'{b_}.tokens[:] = {a_}.tokens[length:]' in txt and f'del {a_}.tokens[length:]' in txt \
+        and txt.index(f'{b_}.tokens[:] = {a_}.tokens[length:]') < txt.index(f'del {a_}.tokens[length:]') and len(lens) == 1
+    ctx.check(ok, rid, 'token_store:TokenStore._merge_blocks: rebalance', 'b takes a.tokens[length:] before a is truncated',
+              f'_merge_blocks does not move all of b into a and then split at one position ({[t for t in txt if "tokens" in t]})', m.where)
